@@ -426,7 +426,9 @@ MANIFEST = {
     "text": "Exploration: the real ThroughputCalculator is fed ~10^5 (quick) / ~10^6 (thorough) generated sample streams, each cut into successive batches "
     "(every sample its own batch, random cuts, >=3 batches inside one bucket, driver-tick cuts, out-of-order arrival across workers, host clock skew); every emitted value "
     "is compared with an exact-Fraction reference (cumulative ops / elapsed). One case in 150 sends a runner-supplied throughput (0 and 0.0 included) through the real executor and sampler "
-    "on a virtual clock and the real samples, cut into batches, through the real calculator. Holds on the executions produced, not beyond.",
+    "on a virtual clock and the real samples, cut into batches, through the real calculator; one case in 40 runs two generated streams as two consecutive steps through a real "
+    "Driver coordinator (pickled UpdateSamples payloads, periodic post_process_samples, joinpoint_reached by every worker) and judges what reaches the store with the same oracle. "
+    "Tasks with runner-supplied throughput also get failed requests (no throughput, 0 ops). Holds on the executions produced, not beyond.",
     "note": "Trusts the reference (cumulative ops / elapsed, 30 lines), Python Fractions, and that time_period = absolute_time - task start as AsyncExecutor records it.",
     "technique": "runtime monitor: reference-model oracle + conservation invariant on the calculator's carry list + metamorphic batching relation over generated streams",
     "design_ref": "DESIGN.md section 4 C06",
